@@ -22,7 +22,7 @@ from geneticengine.algorithms.gp.operators.elitism import ElitismStep
 from geneticengine.algorithms.gp.operators.mutation import GenericMutationStep
 from geneticengine.algorithms.gp.operators.novelty import NoveltyStep
 from geneticengine.algorithms.gp.operators.selection import TournamentSelection
-from geneticengine.evaluation.budget import EvaluationBudget
+from geneticengine.evaluation.budget import AnyOf, EvaluationBudget, SearchBudget
 from geneticengine.evaluation.parallel import ParallelEvaluator
 from geneticengine.evaluation.sequential import SequentialEvaluator
 from geneticengine.evaluation.tracker import MultiObjectiveProgressTracker, SingleObjectiveProgressTracker
@@ -401,7 +401,21 @@ def check_gp_runs(h: Harness):
             cls = SingleObjectiveProgressTracker if kind == "single" else MultiObjectiveProgressTracker
             tracker = cls(problem, ev)
             rep = ScriptRep([rng.randrange(T) for _ in range(64)])
-            budget = EvaluationBudget(pop * (3 if evk == "par" else 5))
+            target_evals = pop * (3 if evk == "par" else 5)
+
+            class CheckCap(SearchBudget):
+                """guard: a run whose counter never reaches the budget must still end (and is then
+                judged by the honesty predicate: invocations without counted evaluations)"""
+
+                def __init__(self, cap):
+                    self.left = cap
+
+                def is_done(self, tracker):
+                    self.left -= 1
+                    return self.left < 0
+
+            cap = CheckCap(4 * target_evals + 20)
+            budget = AnyOf(EvaluationBudget(target_evals), cap)
             gp = GeneticProgramming(problem=problem, budget=budget, representation=rep, random=NativeRandomSource(rng.randrange(10**6)),
                                     tracker=tracker, population_size=pop, step=mk())
             site = f"GeneticProgramming.search[{type(ev).__mro__[1].__name__}]"
@@ -411,6 +425,11 @@ def check_gp_runs(h: Harness):
                 h.notes.append(f"C13 GP run step={name} pop={pop} raised {type(e).__name__}: {e} (not a C13 matter; skipped)")
                 h.count("gp:raised")
                 continue
+            if cap.left < 0:
+                h.fail(site, "evaluation-counter-frozen",
+                       f"GP step={name} population={pop}: EvaluationBudget({target_evals}) was never reached within {4 * target_evals + 20} budget checks: "
+                       f"counter={ev.number_of_evaluations()} while the fitness function was invoked {len(log.read())} times",
+                       {"step": name, "pop": pop, "spec": spec})
             n = rep.n
             keys = [rep.keys[u % len(rep.keys)] for u in range(n)]
             inds = [ev.seen.get(u) for u in range(n)]
